@@ -543,6 +543,60 @@ def run(chk):
                            "harness_commands": frules.commands() + ["ft %s %d %d %s" % (e, fl, to, vlib.hx(buf))],
                            "model_command": fmodel[mi_], "impl": line, "model": fl_lines[mi_]})
 
+    # ------------------------------------------------------------ part 7: scans that END IN AN ERROR through every entry point
+    # the return code is part of the result: the callback answers CALLBACK_ERROR / CALLBACK_ABORT at the first, a
+    # middle, the last rule message and at SCAN_FINISHED; no callback at all.  Transcript and return code of every
+    # entry point against the model (Report.v: abort -> ERROR_SUCCESS, error -> ERROR_CALLBACK_ERROR) and each other.
+    zcases, zmodel, zmeta = [], [], []
+    for bi, buf in enumerate([b"abcabc", b"xx"]):
+        cmds = frules.commands()
+        nm = len([r for r in frules.rules if not r["p"]]) + 1          # rule messages + SCAN_FINISHED with both report flags
+        ks = sorted({0, nm // 2, nm - 2, nm - 1})
+        for k in ks:
+            for act in (1, 2):
+                sc = "%d:%d" % (k, act)
+                zmodel.append(model_cmd(frules, 0, sc, len(buf), [(0, buf, len(buf))], ""))
+                cmds.append("script " + sc)
+                for e in FT:
+                    cmds.append("ft %s 0 0 %s" % (e, vlib.hx(buf)))
+                    zmeta.append(("z%d" % bi, buf, sc, e, len(zmodel) - 1))
+        cmds.append("script -")
+        for e in FT:
+            cmds.append("ft %s 0 0 %s nocb" % (e, vlib.hx(buf)))
+            zmeta.append(("z%d" % bi, buf, "nocb", e, None))
+        for e in FT:                                                       # and the scanner / rules still work afterwards
+            cmds.append("ft %s 0 0 %s" % (e, vlib.hx(buf)))
+            zmeta.append(("z%d" % bi, buf, "-", e, "plain"))
+        zmodel.append(model_cmd(frules, 0, "-", len(buf), [(0, buf, len(buf))], ""))
+        for i in range(len(zmeta)):
+            if zmeta[i][4] == "plain" and zmeta[i][0] == "z%d" % bi:
+                zmeta[i] = zmeta[i][:4] + (len(zmodel) - 1,)
+        zcases.append(("z%d" % bi, cmds))
+    zo, _ = vlib.run_cases(h, zcases, timeout=900)
+    zl, _ = vlib.run_lines(model, zmodel, timeout=900)
+    zlines = {cid: [l for l in zo.get(cid, []) if l.startswith("scan msgs=") or l.startswith("crash")] for cid, _ in zcases}
+    zpos = {}
+    n_fail = 0
+    for cid, buf, sc, e, mi_ in zmeta:
+        k = zpos.get(cid, 0)
+        zpos[cid] = k + 1
+        line = zlines[cid][k] if k < len(zlines[cid]) else "crash (no output)"
+        got = protolib.parse_scan(line)
+        if mi_ is None:
+            exp, exp_rc = [], K["ERROR_CALLBACK_REQUIRED"]
+        else:
+            mcalls, mfinal, _ = parse_model(zl[mi_], frules)
+            exp, exp_rc = mfinal, mcalls[-1][0]
+        gotc = None if got is None else [(m[0], m[1], m[2], m[3].get("$s")) if m[0] in "MN" else m for m in got[0]]
+        n_fail += 1
+        if got is None or gotc != exp or got[1] != exp_rc:
+            chk.violation("failing-scan:" + e, "entry %s, callback script %s, %d bytes: return code %s and transcript %s; expected return code %d and %s"
+                          % (e, sc, len(buf), None if got is None else got[1], gotc, exp_rc, exp),
+                          {"rules": frules.describe(), "buffer_hex": vlib.hx(buf), "entry": e, "script": sc,
+                           "harness_commands": frules.commands() + (["script " + sc] if sc not in ("nocb", "-") else []) +
+                                               ["ft %s 0 0 %s%s" % (e, vlib.hx(buf), " nocb" if sc == "nocb" else "")],
+                           "impl": line, "model": None if mi_ is None else zl[mi_]})
+
     # ------------------------------------------------------------ part 2b: a REUSED scanner in the entry-point matrix, more than 64 rules
     # every scanner-level entry point (mem, file, fd, single-block iterator one-shot and resumed) is called on a scanner
     # that has just completed a DIFFERENT scan in which most rules - those with index >= 64 and >= 128 included -
@@ -864,9 +918,9 @@ def run(chk):
         "position_keeping": str(fin["keep"]), "rewinding": str(fin["naive"]), "first_block_lost": fin["keep"][1] != fin["naive"][1],
         "what": "capi.rst does not say that after a not-ready first() the scanner continues with next(); an iterator that "
                 "sets its position in first() before the readiness test loses block 0 on the retry"}
-    chk.note(evaluations=n_runs + n_entry + n_aband + n_ep + n_own + n_reused + n_guard + n_rx + n_ft, distinct_nontrivial=len([d for d in distinct if "1" in d[2]]),
-             traces_validated_against_impl=n_runs + n_entry + n_aband + n_ep + n_own + n_reused + n_guard + n_rx + n_ft, interrupted_runs=n_interrupted, conforming_patterns=n_conf,
-             patterns_outside_contract=n_nonconf, follow_up_scans=n_follow, entry_point_scans=n_entry, abandoned_scan_scenarios=n_aband, flags_timeout_scans=n_ft, guarded_block_runs=n_guard, regexp_entry_scans=n_rx, reused_scanner_entry_scans=n_reused, owned_resource_scans=n_own, entrypoint_runs=n_ep, entrypoint_runs_interrupted_after_header_block=n_ep_after, observations=obs,
+    chk.note(evaluations=n_runs + n_entry + n_aband + n_ep + n_own + n_reused + n_guard + n_rx + n_ft + n_fail, distinct_nontrivial=len([d for d in distinct if "1" in d[2]]),
+             traces_validated_against_impl=n_runs + n_entry + n_aband + n_ep + n_own + n_reused + n_guard + n_rx + n_ft + n_fail, interrupted_runs=n_interrupted, conforming_patterns=n_conf,
+             patterns_outside_contract=n_nonconf, follow_up_scans=n_follow, entry_point_scans=n_entry, abandoned_scan_scenarios=n_aband, failing_scans=n_fail, flags_timeout_scans=n_ft, guarded_block_runs=n_guard, regexp_entry_scans=n_rx, reused_scanner_entry_scans=n_reused, owned_resource_scans=n_own, entrypoint_runs=n_ep, entrypoint_runs_interrupted_after_header_block=n_ep_after, observations=obs,
              rule="one evaluation = one complete run (all calls until the scan completes) or one entry-point scan; distinct = different "
                   "(buffer, block partition incl. null-data blocks, file_size known?, not-ready pattern); non-trivial = at least one "
                   "not-ready answer")
